@@ -488,7 +488,85 @@ pub fn run(tier: Tier) -> i32 {
         }
         rep.add_sweep("many-channels", variants.len() as u64, variants.len() as u64, variants.len() as u64, vec!["connections with 129 / 200 / 256 channels (ids up to 255, kinds interleaved, configured in ascending or descending id order): a small, a medium and a sliced message on every channel in both directions".into()]);
     }
+    // scale class: single messages up to the default channel budget (5 MiB = 4370 slices) on every channel kind
+    {
+        let lens: Vec<usize> = tier.pick(vec![1_200_000, 1_200_001, 1_500_000, 5_242_880], vec![76_801, 1_199_999, 1_200_000, 1_200_001, 1_500_000, 3_000_000, 5_242_879, 5_242_880]);
+        let cases: Vec<(u8, usize)> = (0..3u8).flat_map(|k| lens.iter().map(move |&l| (k, l))).collect();
+        let res = explore::par_cases(cases.len(), |i| big_message_case(cases[i].0, cases[i].1));
+        for (i, r) in res.into_iter().enumerate() {
+            if let Some(v) = r {
+                rep.violation("big-messages", v, J::obj().set("kind", J::s("big-message")).set("channel_kind", J::i(cases[i].0 as u64)).set("len", J::i(cases[i].1 as u64)));
+            }
+        }
+        rep.add_sweep("big-messages", cases.len() as u64, cases.len() as u64, 3, vec![format!("one message of {:?} bytes on an unreliable / ordered / unordered channel with the default 5 MiB budget, both directions", lens)]);
+    }
     rep.finish()
+}
+
+/// One message of `len` bytes (up to the default channel budget) on a channel of the given kind, both directions.
+pub fn big_message_case(kind: u8, len: usize) -> Option<Violation> {
+    use renet::{ChannelConfig, ConnectionConfig, RenetClient, RenetServer, SendType};
+    use std::time::Duration;
+    let chans = || {
+        vec![ChannelConfig {
+            channel_id: 0,
+            max_memory_usage_bytes: 5 * 1024 * 1024,
+            send_type: match kind {
+                0 => SendType::Unreliable,
+                1 => SendType::ReliableOrdered { resend_time: Duration::from_millis(300) },
+                _ => SendType::ReliableUnordered { resend_time: Duration::from_millis(300) },
+            },
+        }]
+    };
+    let cfg = || ConnectionConfig { available_bytes_per_tick: 16_000_000, server_channels_config: chans(), client_channels_config: chans() };
+    let body = |dir: u8| -> Vec<u8> { (0..len).map(|i| ((i / 1200) as u8).wrapping_mul(31).wrapping_add((i % 1200) as u8).wrapping_add(dir)).collect() };
+    let r = crate::link::guard("big message", || {
+        let mut srv = RenetServer::new(cfg());
+        let mut cl = RenetClient::new(cfg());
+        srv.add_connection(1);
+        cl.set_connected();
+        srv.send_message(1, 0u8, body(0));
+        cl.send_message(0u8, body(1));
+        let mut got: [Vec<Vec<u8>>; 2] = [vec![], vec![]];
+        let dt = Duration::from_millis(100);
+        for _ in 0..4 {
+            srv.update(dt);
+            cl.update(dt);
+            if let Ok(pk) = srv.get_packets_to_send(1) {
+                for p in pk {
+                    cl.process_packet(&p);
+                }
+            }
+            for p in cl.get_packets_to_send() {
+                let _ = srv.process_packet_from(&p, 1);
+            }
+            while let Some(m) = cl.receive_message(0u8) {
+                got[0].push(m.to_vec());
+            }
+            while let Some(m) = srv.receive_message(1, 0u8) {
+                got[1].push(m.to_vec());
+            }
+        }
+        let kname = ["unreliable", "ordered", "unordered"][kind as usize];
+        // integrity is this property's subject: whatever is obtained is the submitted message, once. Whether a
+        // message this close to the budget gets through at all is C09's subject (see the finding recorded there)
+        for dir in 0..2usize {
+            if got[dir].is_empty() && (kind == 0 || cl.is_disconnected() || !srv.is_connected(1)) {
+                continue;
+            }
+            if got[dir].len() != 1 || got[dir][0] != body(dir as u8) {
+                return Some(Violation::new(
+                    format!("C03/big-message/not-identical/{}", kname),
+                    format!("direction {}: submitted one {} byte message, obtained {} message(s){}", dir, len, got[dir].len(), got[dir].first().map(|m| format!(", first of {} bytes", m.len())).unwrap_or_default()),
+                ));
+            }
+        }
+        None
+    });
+    match r {
+        Ok(v) => v,
+        Err(v) => Some(v),
+    }
 }
 
 /// A connection with `n` channels (ids spread over 0..=255): nothing crosses between channels.
@@ -587,6 +665,21 @@ pub fn many_channels_case(n: usize, descending: bool) -> Option<Violation> {
 }
 
 pub fn replay(j: &J) -> i32 {
+    if j.get("kind").and_then(|k| k.as_str()) == Some("big-message") {
+        let k = j.get("channel_kind").and_then(|x| x.as_i()).unwrap_or(0) as u8;
+        let len = j.get("len").and_then(|x| x.as_i()).unwrap_or(1_500_000) as usize;
+        println!("big message case: kind {} length {}", k, len);
+        return match big_message_case(k, len) {
+            Some(v) => {
+                println!("RESULT: violation {} — {}", v.signature, v.message);
+                1
+            }
+            None => {
+                println!("RESULT: no violation");
+                0
+            }
+        };
+    }
     if j.get("kind").and_then(|k| k.as_str()) == Some("many-channels") {
         let n = j.get("channels").and_then(|x| x.as_i()).unwrap_or(256) as usize;
         let d = matches!(j.get("descending"), Some(J::Bool(true)));
